@@ -229,3 +229,40 @@ Proof.
     + dbind H as [s1 v]. injection H as <- _. apply heap_ext_eq. apply reference_heap in E. exact E.
     + apply IH in H. exact H.
 Qed.
+
+(* ------------------------------------------------------------------ emission order of one row *)
+
+(* The rows emitted while generating one row of template t are, in output order: the rows
+   created by its fields (nested templates), then the row itself (unless its table is
+   hidden), then the rows created by its friends.  ([out] is kept newest-first.) *)
+Theorem row_emission_order n e t i s s' r :
+  run (S n) e (TRow t i) s = Ok (s', r) ->
+  exists fields_rows this friends_rows,
+    out s' = friends_rows ++ this ++ fields_rows ++ out s /\
+    Forall clean_row fields_rows /\ Forall clean_row friends_rows /\
+    (this = [] \/ exists row, this = [row] /\ fst row = t_table t /\ clean_row row).
+Proof.
+  intros H. cbn [run] in H.
+  destruct (new_row_id s (t_table t) (t_nick t)) as [s1 id] eqn:Hid.
+  dbind H as [s4 r4].
+  destruct (nth_error (heap s4) (length (heap s1))) as [c|] eqn:Hc; [|discriminate].
+  dbind H as s6. dbind H as [s7 r7]. injection H as <- _.
+  pose proof (new_row_id_out s (t_table t) (t_nick t)) as H0. rewrite Hid in H0. cbn [fst] in H0.
+  (* the cell being written is the one created for this row *)
+  assert (Hct : c_table c = t_table t).
+  { pose proof (run_heap_ext _ _ _ _ _ _ E) as Hext.
+    assert (Hn3 : nth_error (heap (register_object (set_obj (upd_heap s1 (heap s1 ++ [mkCell (t_table t) id i []])) (length (heap s1)))
+                                     (length (heap s1)) (t_table t) (t_nick t) (t_once t))) (length (heap s1))
+                  = Some (mkCell (t_table t) id i [])).
+    { rewrite register_object_heap, set_obj_heap. cbn [heap upd_heap].
+      rewrite nth_error_app2 by lia. rewrite Nat.sub_diag. reflexivity. }
+    destruct (Hext _ _ Hn3) as (c' & Hc' & k1 & _). rewrite Hc in Hc'. injection Hc' as <-. exact k1. }
+  apply run_extends in E. destruct E as (nf & Hnf & Fnf).
+  rewrite register_object_out, set_obj_out in Hnf. cbn [out upd_heap] in Hnf. rewrite H0 in Hnf.
+  apply run_extends in E1. destruct E1 as (nfr & Hnfr & Fnfr).
+  apply write_row_spec in E0. rewrite remember_deps_out, remember_deps_heap in E0.
+  destruct E0 as [Hs|(row & Hr & Hclean & c' & Hc' & Ht & _)].
+  - exists nf, [], nfr. rewrite Hnfr, Hs, Hnf. cbn [app]. splits; auto.
+  - exists nf, [row], nfr. rewrite Hnfr, Hr, Hnf. cbn [app]. splits; auto.
+    right. exists row. splits; auto. rewrite Hc in Hc'. injection Hc' as <-. congruence.
+Qed.
